@@ -8,7 +8,7 @@
 From Coq Require Import String.
 From PV Require Import Base.Bytes Base.Outcome Base.Prim Base.Fmt Base.Enum
      Gen.ElfLayouts Gen.Tables Spec.ElfGabi Spec.PrimSpec Spec.C02Spec
-     Model.C02Contents Proofs.C02Proofs Proofs.C02Containment.
+     Model.C02Contents Gen.PyFuns Proofs.C02Proofs Proofs.C02Containment Proofs.PyFunsC02.
 Open Scope Z_scope.
 
 (* ---------------- what the code's data is: Gen tables against the gABI ---------------- *)
@@ -133,6 +133,24 @@ Theorem C02_section_in_segment_strict : forall Tp Ts (s : shdr) (g : phdr) addra
   = section_in_segment_strict s g.
 Proof. exact section_in_segment_strict_exact. Qed.
 Print Assumptions C02_section_in_segment_strict.
+
+(* the same, for the function body TRANSLATED from the live Python source on every run
+   (Gen/PyFuns.v gen_section_in_segment, by tools/gen/pyast.py): first the translated body equals
+   the hand model on all header values, then the containment rule holds of the translated code *)
+Theorem C02_translated_section_in_segment_is_model : forall pt po pv pf pm st sf sa so ss al,
+  gen_section_in_segment pf pm po pt pv sa sf so ss st
+  = section_in_segment (mk_pheader pt po pv pf pm) (mk_sheader st sf sa so ss al).
+Proof. exact gen_section_in_segment_is_model. Qed.
+Print Assumptions C02_translated_section_in_segment_is_model.
+
+Theorem C02_translated_section_in_segment_strict : forall Tp Ts (s : shdr) (g : phdr),
+  p_type_table_ok Tp = true -> sh_type_table_ok Ts = true ->
+  sis_domain s g = true ->
+  gen_section_in_segment (p_filesz g) (p_memsz g) (p_offset g) (dec_enum Tp (p_type g)) (p_vaddr g)
+                         (sh_addr s) (sh_flags s) (sh_offset s) (sh_size s) (dec_enum Ts (sh_type s))
+  = section_in_segment_strict s g.
+Proof. exact gen_section_in_segment_strict_exact. Qed.
+Print Assumptions C02_translated_section_in_segment_strict.
 
 (* the statement without the no-wrap restriction is false: Python's unbounded integers and
    binutils' 64-bit arithmetic part ways when offset - p_offset + size reaches 2^64 (no
